@@ -128,7 +128,116 @@ def run_nested_scope(case):
         cleanup()
 
 
-KINDS = {"nested_scope": run_nested_scope}
+# ---- file_store ------------------------------------------------------------------------------------------------------------------
+def _bad_value(which):
+    from lib import pyvals as pv
+    if which == "unser":
+        return pv.Unser(3)                              # __getstate__ raises
+    if which == "unser-nested":
+        return {"rows": [1, {"handle": pv.Unser(4)}]}
+    deep = cur = []
+    for _ in range(5000):                               # nested beyond what the encoder's recursion can take
+        nxt = []
+        cur.append(nxt)
+        cur = nxt
+    return deep
+
+
+def run_file_store(case):
+    """C05 on a PERSISTENT cassette: operations of one or two classes recorded into a file cassette directory, some of
+    which captured a value the serializer refuses (as intercepted input result / output argument / record_data value /
+    operation result).  After every operation the store is inspected the way its users do: each created recording fetched
+    by id, the category looked up, every listed recording replayed."""
+    import os
+    import shutil
+    import tempfile
+    rdrv = _rdrv()
+    from playback.tape_recorder import TapeRecorder, RecordingParameters
+    from playback.exceptions import NoSuchRecording
+    from playback.tape_cassettes.file_based.file_based_tape_cassette import FileBasedTapeCassette
+    d = tempfile.mkdtemp(prefix="verif_fstore_")
+    try:
+        inner = FileBasedTapeCassette(os.path.join(d, "cassette"))
+
+        class ThinSpy(rdrv.Spy):
+            def save_recording(self, recording):
+                n = self.ords.get(recording.id, -1)
+                try:
+                    self.inner.save_recording(recording)
+                except Exception as ex:
+                    self.log.append({"c": "savefailed", "ord": n, "e": type(ex).__name__})
+                    raise
+                self.log.append({"c": "save", "ord": n})
+        spy = ThinSpy(inner)
+        rec = TapeRecorder(spy)
+        cur = {}
+        fetch = rec.static_intercept_input("fetch")(lambda x: cur["v"] if cur["how"] == "input" else x + 1)
+        send = rec.static_intercept_output("send")(lambda *a: None)
+
+        def body(self):
+            got = fetch(1)
+            send("payload", cur["v"] if cur["how"] == "output" else 2)
+            if cur["how"] == "data":
+                rec.record_data("note", cur["v"])
+            send("done", 0 if cur["how"] == "input" else got)
+            return cur["v"] if cur["how"] == "result" else "ok"
+        classes = {}
+        for name in ("OpA", "OpB"):
+            classes[name] = rec.recording_params(RecordingParameters(sampling_rate=1.0))(
+                type(name, (object,), {"execute": rec.operation()(body)}))
+        out = []
+        specs = []
+        for st in case["steps"]:
+            spec = {"how": st["how"], "v": _bad_value(st["value"]) if st["value"] != "good" else [1, "two", {"k": 3.5}]}
+            specs.append(spec)
+            cur.clear()
+            cur.update(spec)
+            spy.log = []
+            rec.enable_recording()
+            try:
+                classes[st["cls"]]().execute()
+                o = "val"
+            except BaseException as ex:
+                o = type(ex).__name__
+            rec.disable_recording()
+            ob = {"outcome": o, "cass": [[c["c"], c.get("ord", len(spy.ids) - 1)] for c in spy.log if c["c"] != "get"],
+                  "stored": [], "lookup": {}, "replays": []}
+            for k, rid in enumerate(spy.ids):
+                try:
+                    inner.get_recording(rid)
+                    ob["stored"].append("whole")
+                except NoSuchRecording:
+                    ob["stored"].append("absent")
+                except Exception as ex:
+                    ob["stored"].append("broken:" + type(ex).__name__)
+            for cat in sorted(classes):
+                try:
+                    ids = list(inner.iter_recording_ids(cat))
+                    ob["lookup"][cat] = sorted(spy.ords.get(i, -1) for i in ids)
+                except Exception as ex:
+                    ob["lookup"][cat] = {"error": type(ex).__name__}
+                    ids = []
+                for rid in ids:
+                    k = spy.ords.get(rid, -1)
+                    if 0 <= k < len(specs):
+                        cur.clear()
+                        cur.update(specs[k])
+                    try:
+                        pb = rec.play(rid, lambda recording: classes[cat]().execute())
+                        same = rdrv.canon_items(rdrv.datum_list((x.key, x.value) for x in pb.playback_outputs)) == \
+                            rdrv.canon_items(rdrv.datum_list((x.key, x.value) for x in pb.recorded_outputs))
+                        ob["replays"].append([k, "same-outputs" if same else "different-outputs"])
+                    except Exception as ex:
+                        ob["replays"].append([k, type(ex).__name__])
+            ob["replays"].sort()
+            ob["files"] = len(os.listdir(inner.directory))
+            out.append(ob)
+        return {"steps": out}
+    finally:
+        shutil.rmtree(d, ignore_errors=True)
+
+
+KINDS = {"nested_scope": run_nested_scope, "file_store": run_file_store}
 
 
 def in_front_of(fallback):
